@@ -141,15 +141,16 @@ func GetMailboxInfoPerUser(db *sql.DB, mailboxID int64) (uidValidity, uidNext in
 }
 
 func IncrementUIDNextPerUser(db *sql.DB, mailboxID int64) (int64, error) {
-	var currentUID int64
-	err := db.QueryRow("SELECT uid_next FROM mailboxes WHERE id = ?", mailboxID).Scan(&currentUID)
+	// Hand out the current uid_next and advance it in ONE statement: with a
+	// SELECT followed by an UPDATE two sessions adding to the same mailbox
+	// could read the same value, and the slower one then failed on
+	// UNIQUE(mailbox_id, uid).
+	var newUID int64
+	err := db.QueryRow("UPDATE mailboxes SET uid_next = uid_next + 1 WHERE id = ? RETURNING uid_next - 1", mailboxID).Scan(&newUID)
 	if err != nil {
 		return 0, err
 	}
-
-	newUID := currentUID
-	_, err = db.Exec("UPDATE mailboxes SET uid_next = uid_next + 1 WHERE id = ?", mailboxID)
-	return newUID, err
+	return newUID, nil
 }
 
 func MailboxExistsPerUser(db *sql.DB, userID int64, mailboxName string) (bool, error) {
